@@ -428,6 +428,9 @@ func childServerNode(args []string) {
 			fmt.Println("SNAP " + strings.ReplaceAll(fmt.Sprint(err), "\n", " "))
 		case "leader":
 			fmt.Println("LEADER " + fmt.Sprint(s.VerifZeroGroup().LeaderId()))
+		case "applied":
+			st := s.VerifZeroGroup().VerifStatus()
+			fmt.Printf("APPLIED %d %d\n", st.Applied, st.Commit)
 		case "stacks":
 			fmt.Println("STACKS " + strings.ReplaceAll(goroutineDump(), "\n", " | "))
 		case "stop":
@@ -1329,11 +1332,18 @@ func srvMembershipRejoin(cx *Ctx, hard bool) {
 	if !check("after two acknowledged joins", []uint64{1, 2, 3}, want(1, 2, 3)) {
 		return
 	}
-	ds, _, err := c.createPatiently(1, 2, 2, 3, 30*time.Second)
+	ds, _, err := c.createPatiently(1, 2, 6, 3, 30*time.Second)
 	if err != nil {
 		out.Local("set-up: create failed: %v", err)
 		return
 	}
+	sortTwo := func(a, b string) []string {
+		if a > b {
+			return []string{b, a}
+		}
+		return []string{a, b}
+	}
+	_ = sortTwo
 	replicas := func(via uint64) string {
 		ctx, cancel := context.WithTimeout(context.Background(), 2*time.Second)
 		defer cancel()
@@ -1360,7 +1370,7 @@ func srvMembershipRejoin(cx *Ctx, hard bool) {
 	if !check("after member 3's removal was acknowledged", []uint64{1, 2}, want(1, 2)) {
 		return
 	}
-	waitForSlow(20*time.Second, func() bool { return replicas(1) == "2,2" })
+	waitForSlow(20*time.Second, func() bool { return replicas(1) == "2,2,2,2,2,2" })
 	out.Local("member 3 removed (acknowledged) and shut down; replicas per partition as member 1 lists them: %s", replicas(1))
 	if err := c.start(3); err != nil {
 		out.Violate("C20", "C20/servers/rejoin-fails", fmt.Sprintf("the removed node cannot join again under its id: %v", err))
@@ -1369,8 +1379,22 @@ func srvMembershipRejoin(cx *Ctx, hard bool) {
 	if !check("after the removed member joined again (acknowledged)", []uint64{1, 2, 3}, want(1, 2, 3)) {
 		return
 	}
-	waitForSlow(15*time.Second, func() bool { return replicas(1) == "3,3" })
+	waitForSlow(15*time.Second, func() bool { return replicas(1) == "3,3,3,3,3,3" })
 	out.Local("member 3 joined again; replicas per partition: %s", replicas(1))
+	// listing each other is not all: the member that came back must also be *reached* — it applies what
+	// the leader has committed since (asked of the zero groups directly: no catalogue change is made here,
+	// the allocators are busy giving the member its replicas back)
+	appliedOf := func(id uint64) (uint64, uint64) {
+		var a, cm uint64
+		fmt.Sscanf(c.ask(id, "applied", 5*time.Second), "APPLIED %d %d", &a, &cm)
+		return a, cm
+	}
+	_, target := appliedOf(1)
+	if target > 0 && !waitForSlow(45*time.Second, func() bool { a, _ := appliedOf(3); return a >= target }) {
+		a, _ := appliedOf(3)
+		out.Violate("C20", "C20/servers/rejoined-member-not-reached", fmt.Sprintf("a member that was removed and joined again under its id is listed by everybody, but 45 s later it has applied %d of the %d entries the leader had committed when it came back: the others cannot reach it", a, target))
+		return
+	}
 	c.stop(1, hard)
 	if err := c.start(1); err != nil {
 		out.Violate("C20", "C20/servers/restart-fails", fmt.Sprintf("member 1 does not start again: %v", err))
